@@ -1,4 +1,5 @@
 import GradysProofs.Lemmas.NonInterfRun
+import GradysProofs.Lemmas.NonInterfDur
 /-
   C13 — unique identities; nodes affect each other only through messages.
 
@@ -32,8 +33,19 @@ import GradysProofs.Lemmas.NonInterfRun
       events of `x` use up the budget of the others;
    2. the clock value read inside `finish`: `_finalize_simulation` runs when the queue is exhausted or
       the bound is hit, and `current_time()` is then the time of the last event of ANY node.
-  What is proved instead carries the `_partial` suffix: it is about runs without bounds
-  (`evSteps`; `C13_evSteps_is_steps` ties them to `step_simulation`) up to but excluding finalisation.
+  What is proved instead:
+   * `_partial`: runs without bounds (`evSteps`; `C13_evSteps_is_steps` ties them to
+     `step_simulation`) up to but excluding finalisation;
+   * `C13_noninterference_duration`: COMPLETED runs of `step_simulation` / `start_simulation` under a
+     `duration` bound and no iteration limit, finalisation included. A completed run is the
+     finalisation of the first event-level world that `is_simulation_done` (`C13_completed_run`); at
+     that point both runs have executed the same number of events not owned by `x`
+     (`C13_view_before_finalisation`), so everything the others observe before the first `finish`
+     callback is equal, the `finish` callbacks are those of every `n ≠ x` in node order, positions
+     agree; and when the `finish` reactions of the others are clock free (`FinishClockFree`: they
+     ignore the time argument and issue no `schedule_timer`) the complete projected traces agree up to
+     the time reported to `finish` (channel 2, `Obs.eraseFinishTime`). `C13_finish_setTimer_witness`
+     shows that `schedule_timer` inside `finish` is a second way of reading that clock.
 -/
 set_option linter.unusedSectionVars false
 
@@ -174,6 +186,132 @@ theorem C13_noninterference_partial_vs_idle (cfg : Config S) (hdt : 0 ≤ cfg.dt
         (evSteps cfg (mute P x) k₂ (start0 cfg (mute P x))).pos n) :=
   C13_noninterference_partial cfg hdt P (mute P x) x hs (mute_silent P x) (mute_agree P x) k₁ k₂
 
+/-! ### completed runs under a duration bound (what `start_simulation` does)
+
+  `cfg.maxIter = none` throughout: the iteration budget is the first excluded channel of F13.
+  `cfg.duration` is arbitrary (`some D`, or `none`: the run then ends when the queue is exhausted). -/
+
+/-- generalisation of `C13_evSteps_is_steps` to ANY bounds: as long as `is_simulation_done` has not
+    held (`Live`: none of the event-level worlds `0 … k+1` is done), `k+1` calls of `step_simulation`
+    on a freshly built simulation are initialisation followed by `k+1` event-level steps -/
+theorem C13_steps_is_evSteps_until_done (cfg : Config S) (hdt : 0 ≤ cfg.dt) (P : NodeId → Proto S σ)
+    (k : Nat) (hl : ∀ j, j < k + 2 → isDone cfg (evSteps cfg P j (start0 cfg P)) = false) :
+    steps cfg P (k + 1) (init cfg P) = evSteps cfg P (k + 1) (start0 cfg P) :=
+  steps_eq_evSteps_live cfg hdt P k hl
+
+/-- a COMPLETED run is the finalisation of the event-level run after exactly `k` events, `k` being
+    the first count at which `is_simulation_done` holds (any bounds) -/
+theorem C13_completed_run (cfg : Config S) (hdt : 0 ≤ cfg.dt) (P : NodeId → Proto S σ) (n : Nat)
+    (hfin : (steps cfg P n (init cfg P)).finalized = true) :
+    ∃ k, (∀ j, j < k → isDone cfg (evSteps cfg P j (start0 cfg P)) = false) ∧
+      isDone cfg (evSteps cfg P k (start0 cfg P)) = true ∧
+      steps cfg P n (init cfg P) = finalise cfg P (evSteps cfg P k (start0 cfg P)) :=
+  completed_run cfg hdt P n hfin
+
+/-- without an iteration limit, two runs that differ only in the silent node `x` have executed THE
+    SAME NUMBER OF EVENTS NOT OWNED BY `x` when they complete, and their worlds just before
+    finalisation look the same to the others (clocks apart) -/
+theorem C13_view_before_finalisation (cfg : Config S) (hm : cfg.maxIter = none) (hdt : 0 ≤ cfg.dt)
+    (P₁ P₂ : NodeId → Proto S σ) (x : NodeId) (hs₁ : Silent x P₁) (hs₂ : Silent x P₂)
+    (hP : ∀ n, n ≠ x → P₁ n = P₂ n) (k₁ k₂ : Nat)
+    (hl₁ : ∀ j, j < k₁ → isDone cfg (evSteps cfg P₁ j (start0 cfg P₁)) = false)
+    (hd₁ : isDone cfg (evSteps cfg P₁ k₁ (start0 cfg P₁)) = true)
+    (hl₂ : ∀ j, j < k₂ → isDone cfg (evSteps cfg P₂ j (start0 cfg P₂)) = false)
+    (hd₂ : isDone cfg (evSteps cfg P₂ k₂ (start0 cfg P₂)) = true) :
+    visCount x (evSteps cfg P₁ k₁ (start0 cfg P₁)) = visCount x (evSteps cfg P₂ k₂ (start0 cfg P₂)) ∧
+    ViewEq x (evSteps cfg P₁ k₁ (start0 cfg P₁)) (evSteps cfg P₂ k₂ (start0 cfg P₂)) :=
+  ⟨visCount_eq_of_done cfg hdt hm P₁ P₂ x hs₁ hs₂ hP k₁ k₂ hl₁ hd₁ hl₂ hd₂,
+   viewEq_before_finalise cfg hdt hm P₁ P₂ x hs₁ hs₂ hP k₁ k₂ hl₁ hd₁ hl₂ hd₂⟩
+
+/-- the structure of the two complete projected traces: a COMMON part `A` without any `finish`
+    callback (everything up to finalisation: callbacks with payloads and reported times, requests with
+    outcomes), followed in each run by the `finish` blocks of the nodes other than `x` in node order
+    (`FinBlocks`: for each `n ≠ x`, its `finish` callback at some time, then requests of `n` only) -/
+theorem C13_noninterference_duration_blocks (cfg : Config S) (hm : cfg.maxIter = none)
+    (hdt : 0 ≤ cfg.dt) (P₁ P₂ : NodeId → Proto S σ) (x : NodeId) (hs₁ : Silent x P₁)
+    (hs₂ : Silent x P₂) (hP : ∀ n, n ≠ x → P₁ n = P₂ n) (n₁ n₂ : Nat) (w₁ w₂ : World S σ)
+    (hw₁ : w₁ = steps cfg P₁ n₁ (init cfg P₁)) (hw₂ : w₂ = steps cfg P₂ n₂ (init cfg P₂))
+    (hf₁ : w₁.finalized = true) (hf₂ : w₂.finalized = true) :
+    ∃ A F₁ F₂, ptrace x w₁ = A ++ F₁ ∧ ptrace x w₂ = A ++ F₂ ∧ (∀ o ∈ A, o.isFinish = false) ∧
+      FinBlocks x (List.range cfg.nNodes) F₁ ∧ FinBlocks x (List.range cfg.nNodes) F₂ := by
+  subst hw₁ hw₂
+  obtain ⟨k₁, hl₁, hd₁, e₁⟩ := completed_run cfg hdt P₁ n₁ hf₁
+  obtain ⟨k₂, hl₂, hd₂, e₂⟩ := completed_run cfg hdt P₂ n₂ hf₂
+  have hv := viewEq_before_finalise cfg hdt hm P₁ P₂ x hs₁ hs₂ hP k₁ k₂ hl₁ hd₁ hl₂ hd₂
+  obtain ⟨F₁, hF₁, hB₁⟩ := ptrace_finalise cfg P₁ x _ (evSteps_flags cfg hdt P₁ k₁).2
+  obtain ⟨F₂, hF₂, hB₂⟩ := ptrace_finalise cfg P₂ x _ (evSteps_flags cfg hdt P₂ k₂).2
+  refine ⟨ptrace x (evSteps cfg P₁ k₁ (start0 cfg P₁)), F₁, F₂, ?_, ?_, ?_, hB₁, hB₂⟩
+  · rw [e₁, hF₁]
+  · rw [e₂, hF₂, hv.ptrace_eq]
+  · exact ptrace_noFinish (evSteps_noFinish cfg hdt P₁ k₁)
+
+/-- NON-INTERFERENCE FOR COMPLETED RUNS UNDER A DURATION (no iteration limit): what
+    `Simulator.start_simulation` does.  Two runs with the same configuration whose programs agree off
+    the silent node `x`, both completed (`finalized`), after whatever numbers of `step_simulation`
+    calls.  Then, for the nodes other than `x`:
+     1. everything they observe BEFORE THE FIRST `finish` CALLBACK is the same in both runs:
+        callbacks with payloads and reported times, requests with outcomes (`beforeFinish`);
+     2. in both runs the `finish` callbacks are those of every node `n ≠ x`, once each, in node order;
+     3. their positions agree;
+     4. if moreover the `finish` reaction of every `n ≠ x` is clock free (`FinishClockFree`: it does
+        not depend on the time it is given, and issues no `schedule_timer`, whose outcome tests the
+        clock), the COMPLETE projected traces agree up to the time reported to `finish`
+        (`Obs.eraseFinishTime`): same `finish` callbacks, same requests inside them, same outcomes.
+    Formulation chosen: 1–3 are unconditional and exclude what happens inside `finish`; 4 states the
+    literal "equal except for the `finish` time" under the weakest hypothesis on the programs that
+    makes it TRUE: the clock read in `finish` is the second shared channel of F13
+    (`C13_shared_bounds_witness`), and it is read through the time argument AND through
+    `schedule_timer` (`C13_finish_setTimer_witness`). -/
+theorem C13_noninterference_duration (cfg : Config S) (hm : cfg.maxIter = none) (hdt : 0 ≤ cfg.dt)
+    (P₁ P₂ : NodeId → Proto S σ) (x : NodeId) (hs₁ : Silent x P₁) (hs₂ : Silent x P₂)
+    (hP : ∀ n, n ≠ x → P₁ n = P₂ n) (n₁ n₂ : Nat) (w₁ w₂ : World S σ)
+    (hw₁ : w₁ = steps cfg P₁ n₁ (init cfg P₁)) (hw₂ : w₂ = steps cfg P₂ n₂ (init cfg P₂))
+    (hf₁ : w₁.finalized = true) (hf₂ : w₂.finalized = true) :
+    beforeFinish (ptrace x w₁) = beforeFinish (ptrace x w₂) ∧
+    finishNodes (ptrace x w₁) = (List.range cfg.nNodes).filter (fun n => n != x) ∧
+    finishNodes (ptrace x w₂) = (List.range cfg.nNodes).filter (fun n => n != x) ∧
+    (∀ n, n ≠ x → w₁.pos n = w₂.pos n) ∧
+    ((∀ n, n ≠ x → FinishClockFree P₂ n) →
+      (ptrace x w₁).map Obs.eraseFinishTime = (ptrace x w₂).map Obs.eraseFinishTime) := by
+  obtain ⟨A, F₁, F₂, h₁, h₂, hA, hB₁, hB₂⟩ := C13_noninterference_duration_blocks cfg hm hdt P₁ P₂ x
+    hs₁ hs₂ hP n₁ n₂ w₁ w₂ hw₁ hw₂ hf₁ hf₂
+  subst hw₁ hw₂
+  obtain ⟨k₁, hl₁, hd₁, e₁⟩ := completed_run cfg hdt P₁ n₁ hf₁
+  obtain ⟨k₂, hl₂, hd₂, e₂⟩ := completed_run cfg hdt P₂ n₂ hf₂
+  have hv := viewEq_before_finalise cfg hdt hm P₁ P₂ x hs₁ hs₂ hP k₁ k₂ hl₁ hd₁ hl₂ hd₂
+  refine ⟨?_, ?_, ?_, ?_, ?_⟩
+  · rw [h₁, h₂, beforeFinish_append hA hB₁, beforeFinish_append hA hB₂]
+  · rw [h₁]; exact finishNodes_append hA hB₁
+  · rw [h₂]; exact finishNodes_append hA hB₂
+  · intro n hn
+    rw [e₁, e₂, finalise_pos, finalise_pos]
+    exact hv.pos n hn
+  · intro hc
+    rw [e₁, e₂]
+    exact (finEq_finalise cfg P₁ P₂ hs₁ hs₂ hP hc (evSteps_flags cfg hdt P₁ k₁).2
+      (evSteps_flags cfg hdt P₂ k₂).2 hv).ptrace_eq
+
+/-- in particular against the idle `x`: a completed run under a duration shows the others what the
+    completed run with `x` doing nothing shows them -/
+theorem C13_noninterference_duration_vs_idle (cfg : Config S) (hm : cfg.maxIter = none)
+    (hdt : 0 ≤ cfg.dt) (P : NodeId → Proto S σ) (x : NodeId) (hs : Silent x P) (n₁ n₂ : Nat)
+    (hf₁ : (steps cfg P n₁ (init cfg P)).finalized = true)
+    (hf₂ : (steps cfg (mute P x) n₂ (init cfg (mute P x))).finalized = true) :
+    beforeFinish (ptrace x (steps cfg P n₁ (init cfg P))) =
+      beforeFinish (ptrace x (steps cfg (mute P x) n₂ (init cfg (mute P x)))) ∧
+    (∀ n, n ≠ x → (steps cfg P n₁ (init cfg P)).pos n =
+      (steps cfg (mute P x) n₂ (init cfg (mute P x))).pos n) ∧
+    ((∀ n, n ≠ x → FinishClockFree P n) →
+      (ptrace x (steps cfg P n₁ (init cfg P))).map Obs.eraseFinishTime =
+        (ptrace x (steps cfg (mute P x) n₂ (init cfg (mute P x)))).map Obs.eraseFinishTime) := by
+  have h := C13_noninterference_duration cfg hm hdt P (mute P x) x hs (mute_silent P x)
+    (mute_agree P x) n₁ n₂ _ _ rfl rfl hf₁ hf₂
+  refine ⟨h.1, h.2.2.2.1, fun hc => h.2.2.2.2 ?_⟩
+  intro n hn
+  unfold FinishClockFree
+  rw [← mute_agree P x n hn]
+  exact hc n hn
+
 /-! ### the witness for finding F13: the literal statement fails at the two shared bounds -/
 
 namespace Witness
@@ -246,6 +384,44 @@ theorem agree : ∀ n, n ≠ 1 → PA n = PB n := by
   · simp [PA, PB, h0]
   · simp [PA, PB, h0, hn]
 
+/-- node 0 as before; in `finish` it also schedules a timer for time 7, without looking at the time
+    it is given -/
+def node0f : Proto Int Unit :=
+  { init := (), react := fun s _ _ cb => match cb with
+      | .initialize => Prog.ofList s [.setTimer "a" 2, .setTimer "b" 4]
+      | .finish => Prog.ofList s [.setTimer "z" 7]
+      | _ => .done s }
+
+def PAf : NodeId → Proto Int Unit := fun n => if n = 0 then node0f else idle
+def PBf : NodeId → Proto Int Unit := fun n => if n = 0 then node0f else if n = 1 then busy else idle
+
+/-- the `schedule_timer` requests (name, accepted?) node `n` issued -/
+def timerReqs (n : NodeId) (tr : List (Obs Int)) : List (String × Bool) :=
+  tr.filterMap (fun o => match o with
+    | .request m (.setTimer name _) ok => if m = n then some (name, ok) else none
+    | _ => none)
+
+theorem silentAf : Silent 1 PAf := by
+  intro s t cb
+  simp [PAf, idle, Prog.silent]
+
+theorem silentBf : Silent 1 PBf := by
+  intro s t cb
+  cases cb <;> simp [PBf, busy, Prog.ofList, Prog.silent, Request.isMsg]
+
+theorem agreef : ∀ n, n ≠ 1 → PAf n = PBf n := by
+  intro n hn
+  by_cases h0 : n = 0
+  · simp [PAf, PBf, h0]
+  · simp [PAf, PBf, h0, hn]
+
+theorem clockFreeB : ∀ n, n ≠ 1 → FinishClockFree PB n := by
+  intro n hn s t t'
+  by_cases h0 : n = 0
+  · subst h0
+    exact ⟨rfl, trivial⟩
+  · simp [PB, h0, hn, idle, Prog.noSetTimer]
+
 end Witness
 
 open Witness in
@@ -268,6 +444,33 @@ theorem C13_shared_bounds_witness :
     timerCbs 0 (steps (cfg none (some 20)) PA 10 (init (cfg none (some 20)) PA)).trace =
       timerCbs 0 (steps (cfg none (some 20)) PB 10 (init (cfg none (some 20)) PB)).trace := by
   refine ⟨silentA, silentB, agree, ?_, ?_, ?_, ?_, ?_⟩ <;> decide
+
+open Witness in
+/-- the clock is read in `finish` through `schedule_timer` too (why `FinishClockFree` excludes it).
+    Node 0's `finish` ignores the time it is given and schedules a timer for time 7; node 1 is silent
+    and the scenarios agree off node 1; with `duration = 20` the clock at finalisation is 4 when node 1
+    is idle (request accepted) and 10 when node 1 has a timer at 10 (request refused: the protocol
+    sees the exception). -/
+theorem C13_finish_setTimer_witness :
+    Silent 1 PAf ∧ Silent 1 PBf ∧ (∀ n, n ≠ 1 → PAf n = PBf n) ∧
+    (∀ s t t', (PAf 0).react s 0 t .finish = (PAf 0).react s 0 t' .finish) ∧
+    timerReqs 0 (steps (cfg none (some 20)) PAf 10 (init (cfg none (some 20)) PAf)).trace
+      = [("a", true), ("b", true), ("z", true)] ∧
+    timerReqs 0 (steps (cfg none (some 20)) PBf 10 (init (cfg none (some 20)) PBf)).trace
+      = [("a", true), ("b", true), ("z", false)] := by
+  refine ⟨silentAf, silentBf, agreef, fun _ _ _ => rfl, ?_, ?_⟩ <;> decide
+
+/-- non-vacuity of the duration theorem on the F13 scenarios (`duration = 20`, node 1 idle vs node 1
+    with timers at 3 and 10, ten `step_simulation` calls each: both runs are complete). Node 0's
+    complete projected traces agree up to the time reported to `finish` (4 vs 10). -/
+example :
+    (ptrace 1 (steps (Witness.cfg none (some 20)) Witness.PA 10
+      (init (Witness.cfg none (some 20)) Witness.PA))).map Obs.eraseFinishTime =
+    (ptrace 1 (steps (Witness.cfg none (some 20)) Witness.PB 10
+      (init (Witness.cfg none (some 20)) Witness.PB))).map Obs.eraseFinishTime :=
+  (C13_noninterference_duration (Witness.cfg none (some 20)) rfl (by decide) Witness.PA Witness.PB 1
+    Witness.silentA Witness.silentB Witness.agree 10 10 _ _ rfl rfl (by decide) (by decide)).2.2.2.2
+    Witness.clockFreeB
 
 /-- non-vacuity of the partial theorem on the witness scenarios: after initialisation and 2 resp. 3
     executed events both runs have executed node 0's two timers, and the projected traces agree -/
